@@ -3,6 +3,7 @@ import ast
 import re
 
 from ..core import AnalysisError
+from .shared_py import inn
 from ..pyfront import unparse
 from . import shared_py as P
 
@@ -76,7 +77,7 @@ def python_generator_mapping(ctx, L):
     ]
     for p, why in pieces:
         L.check(p in src, 'C01.python-generator-mapping', '_form_struct_member|' + why, f.site(), why + ' (expected `%s`)' % p, '')
-    L.check('if member.is_array:' in src, 'C01.python-generator-mapping', '_form_struct_member|array-guard', f.site(),
+    L.check(inn('if member.is_array:', src), 'C01.python-generator-mapping', '_form_struct_member|array-guard', f.site(),
             'array wrapping applies exactly to array members (bound, size or greedy)', '')
     # the keyword names emitted exist in the runtime (F17)
     for mod, q in (('prophy.container', 'array'), ('prophy.composite', 'bytes_')):
